@@ -63,29 +63,32 @@ def run_in(job, tmp):
     subprocess.run('git -C /repo archive HEAD | tar -x -C ' + tmp, shell=True, check=True)
     a = subprocess.run(['patch', '-p1', '-s', '-i', patch], cwd=tmp, capture_output=True, text=True)
     if a.returncode != 0:
-        return (name, prop, 'PATCH-FAILS', a.stdout[:100])
-    if prop not in registered:
-        return (name, prop, 'no-check', '')
-    o = subprocess.run([V + '/bin/cecheck', prop, '--repo', tmp, '--verif', tmp + '/.verif-out'], capture_output=True, text=True, env=env)
-    first = ''
+        return (name, prop, 'PATCH-FAILS', a.stdout[:100], [])
+    o = subprocess.run([V + '/bin/cecheck', 'ALL', '--repo', tmp, '--verif', tmp + '/.verif-out'], capture_output=True, text=True, env=env)
+    import re
+    firsts, detected, broken = {}, [], False
     for l in o.stdout.splitlines():
-        if not l.startswith('KNOWN-FINDING') and not l.startswith('VIOLATION') and ': C' in l:
-            first = l[:230]
-            break
-    return (name, prop, {0: 'silent', 1: 'DETECTED', 2: 'BROKEN'}.get(o.returncode, str(o.returncode)), first)
+        m = re.match(r'^\S+: (C\d\d)[.]', l)
+        if m and not l.startswith('KNOWN-FINDING') and m.group(1) not in firsts:
+            firsts[m.group(1)] = l[:230]
+        m = re.match(r'^(C\d\d) \[quick\]: .* (\d+) violated', l)
+        if m and int(m.group(2)) > 0:
+            detected.append(m.group(1))
+        if 'CHECKER-BROKEN' in l:
+            broken = True
+    verdict = 'DETECTED' if prop in detected else ('BROKEN' if broken else ('other:' + ','.join(detected) if detected else 'silent'))
+    return (name, prop, verdict, firsts.get(prop, next(iter(firsts.values()), '')), detected)
 
 with ThreadPoolExecutor(max_workers=6) as ex:
     results = list(ex.map(run2, jobs))
-for (name, prop, verdict, first), job in zip(results, jobs):
+for (name, prop, verdict, first, detected), job in zip(results, jobs):
     print('%-42s %-4s %-10s %s' % (name, prop, verdict, first))
-    if job[3] and verdict in ('silent', 'DETECTED'):
+    if job[3] and verdict != 'PATCH-FAILS' and verdict != 'BROKEN':
         m = json.load(open(job[3]))
-        det = [x for x in m.get('detected_by', []) if x != prop]
-        if verdict == 'DETECTED':
-            det = [prop] + det
+        det = ([prop] if prop in detected else []) + [d for d in detected if d != prop]
         m['detected_by'] = det
-        if prop not in m.get('checks_run', []):
-            m.setdefault('checks_run', []).append(prop)
+        m['checks_run'] = ['ALL']
         json.dump(m, open(job[3], 'w'), indent=1)
 n = sum(1 for r in results if r[2] == 'DETECTED')
-print('detected %d / %d' % (n, len(results)))
+n2 = sum(1 for r in results if r[2].startswith('other:'))
+print('detected by own check %d, only by another property\'s check %d, of %d' % (n, n2, len(results)))
